@@ -149,9 +149,10 @@ def run():
         "static_inline_entries": n_inline,
         "smt_seconds": r["z3_s"],
     }
+    table_ok = ans == ["unsat", "unsat"] and not bad_struct
     if ans is None:
         res["exit"] = EXIT_INCONCLUSIVE
-    elif not ok:
+    elif not table_ok:
         os.makedirs(os.path.join(REPLAY_DIR, "C21"), exist_ok=True)
         rp = os.path.join(REPLAY_DIR, "C21", "static_table.txt")
         with open(rp, "w") as f:
@@ -159,7 +160,22 @@ def run():
             for key, idx in bad_struct[:20]:
                 f.write("key %r has index %d but STRINGS disagrees\n" % (key, idx))
             f.write("answers: %s\n" % ans)
-            f.write("Atom::cmp compares as_str texts in order: %s\n" % order_ok)
         log("VIOLATION property=C21 replay=%s" % rp)
         res["exit"] = EXIT_VIOLATION
+    elif not order_ok:
+        res["exit"] = order_replay("C21")
     return res
+
+
+def order_replay(prop):
+    """<Atom as Ord>::cmp is no longer the plain text comparison: decide by replaying atom pairs of
+    every storage class on the binary (reproduced -> violation, otherwise not understood)"""
+    from . import prolog
+    rp = prolog.replay_atom_order([{"obligation": "Atom::cmp = str::cmp(as_str(self), as_str(other))"}],
+                                  prop)
+    if rp["reproduced"]:
+        log("VIOLATION property=%s replay=%s" % (prop, rp["path"]))
+        return EXIT_VIOLATION
+    log("  atom order: Atom::cmp has an unrecognised shape but orders the replay set as specified "
+        "(%s) -> inconclusive" % rp.get("why"))
+    return EXIT_INCONCLUSIVE
